@@ -2,7 +2,8 @@
 # Compiles the generated code and its tie proofs in dependency order (single files, no make); prints wall times.
 # usage: cd /verif/coq && sh Proofs/GenTie.build.sh [first-file-to-start-from]
 # The files of the second round start at Gen/PreludeExt and depend on the first round, never the other way:
-#   sh Proofs/GenTie.build.sh Gen/PreludeExt    rebuilds the second round only.
+#   sh Proofs/GenTie.build.sh Gen/PreludeExt    rebuilds the second (and third) round only.
+#   sh Proofs/GenTie.build.sh Gen/HelpersC      rebuilds the third round (geomdl/evaluators.py) only.
 cd "$(dirname "$0")/.." || exit 1
 FILES="Gen/Prelude Gen/LinalgInternal Gen/Linalg Gen/Knotvector Gen/Helpers
 Proofs/GenTieLib Proofs/GenTieKnots Proofs/GenTieSpan Proofs/GenTieBasis Proofs/GenTieBasisOne Proofs/GenTieDersOne
@@ -10,7 +11,10 @@ Proofs/GenTieDersLib Proofs/GenTieDers Proofs/GenTieKnotIns Proofs/GenTieSums Pr
 Proofs/GenTieLU Proofs/GenTieLUSolve Proofs/GenTieKnotRem Proofs/GenTieDegree
 Gen/PreludeExt Gen/LinalgGeom Gen/Voxelize Gen/Utilities Gen/LinalgMat Gen/HelpersB Gen/Fitting
 Proofs/GenTieLib2 Proofs/GenTieGeom Proofs/GenTieVoxel Proofs/GenTieBBox Proofs/GenTieHull
-Proofs/GenTieMat Proofs/GenTieMatSolve Proofs/GenTieBinom Proofs/GenTieElev Proofs/GenTieFit Proofs/GenTieDerivCpts Proofs/GenTieArr4 Proofs/GenTieDerivSurf Proofs/GenTieKnotRemove Proofs/GenTieRefine"
+Proofs/GenTieMat Proofs/GenTieMatSolve Proofs/GenTieBinom Proofs/GenTieElev Proofs/GenTieFit Proofs/GenTieDerivCpts Proofs/GenTieArr4 Proofs/GenTieDerivSurf Proofs/GenTieKnotRemove Proofs/GenTieRefine
+Gen/HelpersC Gen/Evaluators Proofs/GenTieEvalLib Proofs/GenTieEvalCurve Proofs/GenTieEvalSurf Proofs/GenTieEvalVol
+Proofs/GenTieBasisAll Proofs/GenTieEvalDerivCurve Proofs/GenTieEvalDerivCurve2 Proofs/GenTieEvalDerivSurf
+Proofs/GenTieEvalDerivSurfRat Proofs/GenTieDerivSurfShape Proofs/GenTieEvalDerivSurf2"
 start="$1"; go=1; [ -n "$start" ] && go=0
 for f in $FILES; do
   [ "$f" = "$start" ] && go=1
